@@ -30,7 +30,7 @@ REAL = ["rpyc.core.brine", "rpyc.core.channel.Channel", "rpyc.core.protocol.Conn
 STUB = ["the other party in directions (a)/(b) is the independent reference peer", "sockets/time/locks (simulator)"]
 ASSUMPTIONS = ["ref/codec.py is the published format (tags 0x00-0x1b, immediate ints -0x30..0x9f as 0x20..0xef, '!LB' header, newline trailer, "
                "zlib level 1 above 3000 bytes, kinds 1-3, labels 1-4, handlers 1-20)"]
-PROBES = ["c19:compressed-frame", "c19:long-tag", "c19:ref-client", "c19:ref-server", "c19:real-real", "c19:boxing-label", "c19:incompressible-payload", "c19:async-helper-call"]
+PROBES = ["c19:compressed-frame", "c19:long-tag", "c19:ref-client", "c19:ref-server", "c19:real-real", "c19:boxing-label", "c19:incompressible-payload", "c19:async-helper-call", "c19:unrepresentable-text"]
 
 
 def check_stream(sim, raw, compress_enabled, who, allow_cut=False):
@@ -178,7 +178,8 @@ class Target(object):
         import time as _t
         return {"namedtuple": c03.Point(3, 4), "struct_time": _t.gmtime(0), "tuple-sub": c03.MyTuple((1, 2)), "int-sub": c03.MyInt(5),
                 "str-sub": c03.MyStr("s"), "fset-sub": c03.MyFset([1]), "enum": c03.Color.RED, "plain": (1, (2, "x"), None),
-                "mixed": (1, [2], (3, {4: 5})), "list": [1], "empty-tuple": ()}[what]
+                "mixed": (1, [2], (3, {4: 5})), "list": [1], "empty-tuple": (), "lone-surrogate": "caf\udce9.txt",
+                "nested-surrogate": ("x", ("caf\udce9.txt", 1))}[what]
 
     def __str__(self):
         return "target-str"
@@ -270,7 +271,7 @@ def run_one(choices, params):
                 raise core.Violation("meaning-differs", "%s: expected value %r, got %r" % (what, want, r[1]))
         for _ in range(8 + w.draw(25)):
             op = w.pick(("callattr", "callattr", "getattr", "call", "str", "repr", "hash", "dir", "cmp", "buffiter", "inspect", "setattr",
-                         "big", "ctx", "del", "boxing", "noise"))
+                         "big", "ctx", "del", "boxing", "noise", "surrogate"))
             if op == "callattr":
                 args = tuple(values(w.draw(4)))
                 kwargs = tuple(sorted(("k%d" % i, v) for i, v in enumerate(values(w.draw(3)))))
@@ -330,6 +331,14 @@ def run_one(choices, params):
                 expect_value(ask(RC.H_CTXEXIT, (T, (root, (V, None))), "ctxexit"), False, "ctxexit")
                 if svc.items[-2:] != ["enter", "exit"]:
                     raise core.Violation("meaning-differs", "context manager calls: %r" % (svc.items[-4:],))
+            elif op == "surrogate":
+                # text with a lone surrogate has no UTF-8 form: the format cannot carry it, the request is answered with an exception
+                what = w.pick(("lone-surrogate", "nested-surrogate"))
+                r = ask(RC.H_CALLATTR, (T, (root, (V, "make"), (V, (what,)), (V, ()))), "make " + what)
+                sim.count("c19:unrepresentable-text")
+                if r[0] != RC.MSG_EXCEPTION:
+                    raise core.Violation("noncanonical-encoding/text", "make(%s): the real server answered kind %r %r; the published format has no "
+                                         "encoding for a lone surrogate" % (what, r[0], str(r[1])[:120]))
             elif op == "noise":
                 # payloads that do not shrink under zlib (the flag byte must still tell the truth)
                 import random as _r
@@ -496,6 +505,8 @@ def run_one(choices, params):
                         peer.reply(seq, (V, None))
             except PeerEOF:
                 pass
+            except PeerProtocolError as e:
+                sim.fail(core.Violation("frame-layout", "the reference server cannot read what the real client wrote: %s" % e))
         sim.spawn(server, _name="ref.server")
         conn = rpyc.VoidService()._connect(Channel(SocketStream(a), comp_real), {"connid": "real"})
         root = conn.root
@@ -508,8 +519,18 @@ def run_one(choices, params):
         did(RC.H_GETROOT, "conn.root")
         for _ in range(8 + w.draw(25)):
             op = w.pick(("call", "call", "getattr", "setattr", "str", "repr", "hash", "dir", "eq", "ne", "buffiter", "iter", "ctx", "big", "delattr",
-                         "async", "timed"))
+                         "async", "timed", "surrogate"))
             del seen[:]
+            if op == "surrogate":
+                try:
+                    root.echo(w.pick(("caf\udce9.txt", ("x", ("caf\udce9.txt",)))))
+                    sent = True
+                except Exception:
+                    sent = False
+                sim.count("c19:unrepresentable-text")
+                if sent:
+                    raise core.Violation("noncanonical-encoding/text", "the real client transmitted text with a lone surrogate (no UTF-8 form)")
+                continue
             if op in ("async", "timed"):
                 # the helpers build handler-7 requests of their own
                 args = tuple(values(w.draw(3)))
